@@ -150,8 +150,37 @@ class C13(Prop):
             if p.returncode != 0 or p.stdout != ref:
                 ctx.violate("m17mod:binary", f"m17-mod program (exit {p.returncode}) for {ln_} samples, -S {src} -D {dst!r} -C {can}: output {len(p.stdout)} bytes differs from the in-process transmit path ({len(ref)} bytes) or non-zero exit",
                             {"stream": "m17mod-binary", "ops": [" ".join(cmd)], "stderr": p.stderr.decode(errors="replace")[-500:]})
+        # ---------------- long transmission: the 15-bit frame counter wraps at 0x8000 (after 21 min 50 s of audio) ----------------
+        self.long_run(ctx, exe, rng)
         # ---------------- baseband: one continuous filter run ----------------
         self.baseband(ctx, exe, rng)
+
+    def long_run(self, ctx, exe, rng):
+        from lib import m17spec as S
+        src, dst, can = self.rand_call(rng), self.rand_call(rng, True), rng.randrange(16)
+        for nblocks, lo, hi in ((0x8000 + 9, 0x8000 - 6, 0x8000 + 10), (0x10000 + 3, 0x10000 - 3, 0x10000 + 4)) if ctx.tier != "quick" else ((0x8000 + 9, 0x8000 - 6, 0x8000 + 10),):
+            ln = f"mod_long {can} {len(src)} {codes(src)} {len(dst)} {codes(dst)} {nblocks} {lo} {hi}".replace("  ", " ")
+            rep = ctx.run_impl(exe, [ln], "m17mod-long", timeout=900)[0]
+            ctx.count(ln, nontrivial=True)
+            if rep.startswith("<"):
+                continue
+            total, frames, pls = rep.split("|")
+            fb = [int(x) for x in frames.split()]
+            pb = [int(x) for x in pls.split()]
+            lsf = S.make_lsf(dst, src, typ=0x0005, can=can)
+            nfr = nblocks + 1                         # audio blocks + the end-of-stream frame
+            if int(total) != 48 + 48 + 48 * nfr + 12:
+                ctx.violate("m17mod:long-length", f"m17-mod emitted {total.strip()} bytes for {nblocks} audio blocks; the specification stream has {48 + 48 + 48 * nfr + 12}",
+                            {"stream": "m17mod-long", "ops": [ln]})
+            for k in range(lo, min(hi, nfr)):
+                fn = (k % 0x8000) | (0x8000 if k == nfr - 1 else 0)
+                want = [0xFF, 0x5D] + list(S.pack(S.stream_frame_bits(lsf, k % 6, fn, bytes(pb[16 * (k - lo):16 * (k - lo) + 16]))))
+                got = fb[48 * (k - lo):48 * (k - lo) + 48]
+                ctx.stat("long:frames-compared")
+                if got != want:
+                    ctx.violate("m17mod:long-frame", f"stream frame {k} of a {nfr}-frame transmission (-S {src} -D {dst!r} -C {can}) is not the specification frame with frame number {fn:#06x}, LICH fragment {k % 6}",
+                                {"stream": "m17mod-long", "ops": [ln], "frame": k, "got": got, "want": want})
+                    break
 
     def baseband(self, ctx, exe, rng):
         taps = self.read_taps()
